@@ -101,11 +101,11 @@ def why_embed(ei, npre, nsuf, w0, w1, w2, w3, tsi, latent):
 # ------------------------------------------------------------------ C10
 
 NW10 = int(os.environ.get("VQ_NW10", "2"))
-NT10 = int(os.environ.get("VQ_NT10", "2"))
+NT10 = int(os.environ.get("VQ_NT10", "3"))
 NS10 = int(os.environ.get("VQ_NS10", "3"))
 NTI10 = int(os.environ.get("VQ_NTI10", "2"))
 WORDS10 = ["follow-up", "bob", "meet", "Q3"][:NW10]
-TAGS10 = ["#tag_1", "#x-y", "#a", "#_k9"][:NT10]
+TAGS10 = ["#a", "#ab", "#x-y", "#tag_1"][:NT10]
 SEPS10 = [" ", ", ", ") ", "  ", " (", "; "][:NS10]
 TIME10 = ["tomorrow", "friday 8pm", "12.03.2021"][:NTI10]
 
@@ -171,7 +171,7 @@ def why_subject(n, k0, a0, s0, k1, a1, s1, k2, a2, s2, tpos, ti):
 
 # ------------------------------------------------------------------ C11
 
-SEPVARS = [" ", "  ", ", ", " ; ", "\t", " ", " (", ") ", " ", "\n"]
+SEPVARS = [", ", "\x00", " (", "\t", "\u00a0", "  ", " ; ", ") ", "\u2003", "\x7f", "\u200b", "\n", " "]
 DASHES = ["-", "–", "—", "‐", "−" if False else "―", "⁃"]
 CASES = [str.lower, str.upper, str.title]
 EXPRS11 = ["tomorrow 8pm", "friday morning", "monday 10:00 - 12:00", "march 3rd 2020", "heute abend", "9 - 5", "on the 31st",
@@ -192,7 +192,7 @@ def norm_check(expr, sep, dash, case, lead, trail, ts):
     return True, ""
 
 
-NSEP11 = int(os.environ.get("VQ_NSEP11", "6"))
+NSEP11 = int(os.environ.get("VQ_NSEP11", "7"))
 NDASH11 = int(os.environ.get("VQ_NDASH11", "3"))
 
 
